@@ -1,3 +1,99 @@
 import Nv.OracleIO
-/-! oracle_c15 — stub (model not built yet): answers `bad-op` to every line. -/
-def main : IO Unit := Nv.oracleMain (fun (_ : Unit) _ => ((), "bad-op")) ()
+import Nv.Model.C15
+import Nv.Gen.C15
+/-!
+oracle_c15 — line protocol (sequential operations on one worker group):
+  `new <map|lru> <cap> <workers>`                         → `ok`
+  `get <k> <faults>` `del <k> <faults>`
+  `add|upd|uoa|utl|utr <k> <v> <faults>`                  → `<ok:v|nil|err:dup|err:inj|err:nf|err:exists|panic> cb=<callbacks>`
+        faults: string over 0/1 (1 = that callback invocation fails), `-` = none
+  `peek <k>`    → `w<i>:<v>` for every worker cache holding k (`miss` if none)   (non-mutating)
+  `store <k>`   → `<v>` | `none`
+  `stress <seed> <n>` → `done`   (concurrent mix on the real code, judged by monitors only)
+Configuration and worker kernel: `Nv.Gen.C15`.
+-/
+open Nv Nv.C15
+
+/-- strict decimal parsers (Lean's `toNat?` also accepts `_` separators; Go's `strconv` does not) -/
+def natOf (s : String) : Option Nat :=
+  if s.isEmpty || s.length > 9 || !s.all Char.isDigit then none else s.toNat?
+def intOf (s : String) : Option Int :=
+  if s.startsWith "-" then
+    let d := (s.drop 1).toString
+    if d.isEmpty || d.length > 19 || !d.all Char.isDigit then none else d.toNat?.map (fun n => -(n : Int))
+  else if s.isEmpty || s.length > 19 || !s.all Char.isDigit then none else s.toNat?.map (fun n => (n : Int))
+
+abbrev St := Option State
+
+def showErr : Err → String
+  | .inj => "inj" | .notFound => "nf" | .exists => "exists" | .dup => "dup"
+def showRes : Res → String
+  | .ok v => s!"ok:{v}" | .nil => "nil" | .err e => s!"err:{showErr e}" | .panic => "panic"
+def showCb : Cb → String
+  | .load => "load" | .add => "add" | .upd => "upd" | .upsert => "upsert" | .del => "del"
+
+def inInt64 (i : Int) : Bool := decide (-(2:Int)^63 ≤ i) && decide (i < (2:Int)^63)
+
+def parseFaults (s : String) : Option (List Bool) :=
+  if s == "-" then some []
+  else if s.length > 8 then none
+  else s.toList.mapM (fun c => if c == '0' then some false else if c == '1' then some true else none)
+
+def parseKey (s : String) : Option Int := match intOf s with
+  | some i => if inInt64 i then some i else none
+  | none => none
+
+def parseVal (s : String) : Option Nat := match natOf s with
+  | some v => if v < 1000 then some v else none
+  | none => none
+
+def run (s : State) (op : Op) (f : List Bool) : St × String :=
+  let r := step Nv.Gen.C15.cfg Nv.Gen.C15.loc s (op, f)
+  (some r.1, s!"{showRes r.2.res} cb={",".intercalate (r.2.trace.map showCb)}")
+
+def peekAll (cs : List Cache) (k : Key) (i : Nat) : List String :=
+  match cs with
+  | [] => []
+  | c :: rest => (match cPeek c k with | some v => [s!"w{i}:{v}"] | none => []) ++ peekAll rest k (i + 1)
+
+def step1 (st : St) (line : String) : St × String :=
+  match words line with
+  | ["new", f, c, w] =>
+    (match natOf c, natOf w with
+     | some c, some w =>
+       if (f == "map" || f == "lru") && c ≤ 64 && 1 ≤ w && w ≤ 128 then (some (State.init (f == "lru") c w), "ok") else (none, "bad-op")
+     | _, _ => (none, "bad-op"))
+  | [op, k, f] =>
+    (match st, parseKey k, parseFaults f with
+     | some s, some k, some f =>
+       if op == "get" then run s (.get k) f
+       else if op == "del" then run s (.del k) f
+       else (st, "bad-op")
+     | _, _, _ => (st, "bad-op"))
+  | ["stress", seed, n, "-"] =>
+    (match st, natOf seed, natOf n with
+     | some _, some _, some n => if n ≤ 64 then (st, "done") else (st, "bad-op")
+     | _, _, _ => (st, "bad-op"))
+  | [op, k, v, f] =>
+    (match st, parseKey k, parseVal v, parseFaults f with
+     | some s, some k, some v, some f =>
+       if op == "add" then run s (.add k v) f
+       else if op == "upd" then run s (.upd k v) f
+       else if op == "uoa" then run s (.uoa k v) f
+       else if op == "utl" then run s (.utl k v) f
+       else if op == "utr" then run s (.utr k v) f
+       else (st, "bad-op")
+     | _, _, _, _ => (st, "bad-op"))
+  | ["peek", k] =>
+    (match st, parseKey k with
+     | some s, some k =>
+       let l := peekAll s.caches k 0
+       (st, if l.isEmpty then "miss" else ",".intercalate l)
+     | _, _ => (st, "bad-op"))
+  | ["store", k] =>
+    (match st, parseKey k with
+     | some s, some k => (st, match sGet s.store k with | some v => toString v | none => "none")
+     | _, _ => (st, "bad-op"))
+  | _ => (st, "bad-op")
+
+def main : IO Unit := oracleMain step1 none
